@@ -187,6 +187,7 @@ def run(ctx):
         w = World(rnd, ts='any')
         nt = rnd.choice([2, 2, 3])
         g = gen.ProgGen(w, rnd, ntids=nt, noise=0.1)
+        w.feed_pieces = rnd.random() < 0.3      # handed to the parser in consecutive pieces through feed_generator
         progs = [g.program(t, rnd.randrange(1, 4)) for t in range(1, nt + 1)]
         solos = {}
         for t, p in enumerate(progs, 1):
